@@ -84,13 +84,12 @@ def handlers(repo, run, m):
         stores_status = any(isinstance(st, ast.Assign) and any(is_self_attr(x, "__int_status") for x in st.targets) for st in ast.walk(h))
         # a handler without a status store is harmless only if nothing but the nested integrate() call (which recorded the status itself) can raise its type
         reachable = [r_ for r_ in sorted(raised) if any(is_sub(r_, hn) for hn in _hnames(h))] if not stores_status else []
-        if not stores_status and not reachable and not (set(_hnames(h)) & {"Exception", "BaseException", "<bare>"}):
-            run.judged(rid, "handler %s passes on only what the nested call already recorded" % _hnames(h), ok=True)
-            continue
+        # (no exemption for types the library itself never raises inside the try: the right-hand side, the event functions and the callbacks are user code and can
+        # raise ANY type - e.g. the FailedIntegration of an inner system they drive - so a handler that passes its type on must record the status like the others)
         run.judged(rid, "handler %s records the status" % _hnames(h), ok=stores_status)
         if not stores_status:
             run.report("C12.1", DS, h, "the handler for %s does not store the integration status before the exception leaves integrate(): after such a failure the status and "
-                                       "`success` still describe the previous call, and the error is not wrapped with its cause (integrator code raises %s, which this handler catches)" % (_hnames(h), reachable),
+                                       "`success` still describe the previous call, and the error is not wrapped with its cause (user code reached from the step loop can raise any type%s)" % (_hnames(h), "; integrator code raises %s" % reachable if reachable else ""),
                        text="handler %s without status store" % _hnames(h))
     if ki:
         h = hs[ki[0]]
